@@ -35,7 +35,7 @@ def signed_media(n0, ns, mirrors):
     return out
 
 
-def chain(cs, ts, n_before, n_after, first=0, last=None, refract_first=True):
+def chain(cs, ts, n_before, n_after, first=0, last=None, refract_first=True, refract_last=True):
     """matrix from the vertex plane of surface `first` (before its refraction if refract_first) to just
     after refraction at surface `last`.  cs: curvatures, ts[k]: distance surface k -> k+1,
     n_before[k]/n_after[k]: signed indices."""
@@ -47,7 +47,7 @@ def chain(cs, ts, n_before, n_after, first=0, last=None, refract_first=True):
         if k > first:
             T = [[one, ts[k - 1] / n_after[k - 1]], [one * 0, one]]
             M = mm(T, M)
-        if k > first or refract_first:
+        if (k > first or refract_first) and (k < last or refract_last):
             phi = cs[k] * (n_after[k] - n_before[k])
             M = mm([[one, one * 0], [-phi, one]], M)
     return M
@@ -94,7 +94,11 @@ class Lens:
         return out
 
     def build(self, **kw):
-        return build_optic(self.ctx, self.surfs(), obj_t=self.t0, **kw)
+        # the image surface keeps the last medium (the library's default would refract into 'air' there)
+        last = None
+        for n, m in zip(self.n, self.mirrors):
+            last = last if m else n
+        return build_optic(self.ctx, self.surfs(), obj_t=self.t0, image_n=last, **kw)
 
     # oracle pieces -------------------------------------------------------------
     def media(self):
@@ -106,16 +110,15 @@ class Lens:
         return before, after
 
     def full(self):
-        """curvatures / separations / signed media including the image surface as a final plane whose
-        post-medium is air (the library's image surface is an ordinary refracting plane into 'air')"""
+        """curvatures / separations / signed media including the image surface as a final plane in the
+        last medium"""
         b, a = self.media()
         one = self.ctx.const(1.0)
-        sgn = -1 if sum(self.mirrors) % 2 else 1
-        return self.c + [one * 0], list(self.t), b + [a[-1]], a + [one * sgn]
+        return self.c + [one * 0], list(self.t), b + [a[-1]], a + [a[-1]]
 
-    def forward(self, first=0, last=None, refract_first=True):
+    def forward(self, first=0, last=None, refract_first=True, refract_last=True):
         c, t, b, a = self.full()
-        return chain(c, t, b, a, first, last, refract_first)
+        return chain(c, t, b, a, first, last, refract_first, refract_last)
 
     def reversed_lens(self):
         """prescription of the reversed system: surfaces K..1, curvature negated, media swapped"""
@@ -133,7 +136,7 @@ class Lens:
         cs = [one * 0] + [-c for c in self.c[::-1]]
         ts = [t for t in self.t[::-1]]
         mirrors = [False] + self.mirrors[::-1]
-        n_start = one
+        n_start = mat[-1]
         ns = [mat[-1]] + pre[::-1]
         after = signed_media(n_start, ns, mirrors)
         before = [n_start] + after[:-1]
@@ -158,14 +161,18 @@ def cases_system(tier):
     return out
 
 
-def _oblige_val(ctx, name, lib, oracle):
-    """library value equals oracle when finite; non-finite exactly when the oracle is non-finite"""
+def _oblige_val(ctx, name, lib, oracle, degenerate=False):
+    """library value equals the oracle when both are finite.  A non-finite library value is accepted
+    only on a degenerate path (a denominator of the oracle vanishes there: afocal system, pupil at
+    infinity, ...); a finite library value where the oracle is undefined is a violation."""
     lib = ctx.val(lib)
     oracle = ctx.val(oracle)
     if ctx.finite(lib) and ctx.finite(oracle):
         ctx.oblige(name, ctx.eq(lib, oracle))
+    elif not ctx.finite(lib):
+        ctx.oblige(name + '_nonfinite_only_if_degenerate', (not ctx.finite(oracle)) or degenerate)
     else:
-        ctx.oblige(name + '_nonfinite_both', (not ctx.finite(lib)) and (not ctx.finite(oracle)))
+        ctx.oblige(name + '_finite_but_oracle_undefined', degenerate)
 
 
 @harness('C04', 'H3_cardinal', cases=cases_system, funcs=FUNCS,
@@ -242,3 +249,152 @@ def h1_step(ctx, kind):
         ctx.oblige('z_out', ctx.eq(rays.z, zs))
     ctx.oblige('rec_y', ctx.eq(s.y, yo))
     ctx.oblige('rec_u', ctx.eq(s.u, uo))
+
+
+def cases_pupils(tier):
+    out = []
+    Ks = [1, 2] if tier == 'quick' else [1, 2, 3, 4]
+    for K in Ks:
+        for s in sorted({1, (K + 1) // 2, K}):
+            out.append(dict(K=K, stop=s, obj='inf', ap='EPD', ft='angle', mirrors=()))
+            out.append(dict(K=K, stop=s, obj='finite', ap='EPD', ft='object_height', mirrors=()))
+            if K == 2 or tier == 'thorough':
+                out.append(dict(K=K, stop=s, obj='inf', ap='imageFNO', ft='angle', mirrors=()))
+                out.append(dict(K=K, stop=s, obj='finite', ap='objectNA', ft='angle', mirrors=()))
+    out.append(dict(K=2, stop=1, obj='inf', ap='EPD', ft='angle', mirrors=(1, 2)))
+    out.append(dict(K=2, stop=2, obj='finite', ap='EPD', ft='object_height', mirrors=(2,)))
+    if tier == 'quick':
+        out.append(dict(K=3, stop=2, obj='inf', ap='EPD', ft='angle', mirrors=()))
+    return out
+
+
+@harness('C04', 'H3_pupils', cases=cases_pupils, funcs=FUNCS,
+         bounds='K<=2 (+ one K=3 interior-stop case; thorough K<=4), all R,t,n symbolic, aperture EPD/imageFNO/objectNA '
+                'with symbolic value, field angle/object_height with symbolic maximum, object inf/finite, mirrors',
+         doc='EPL XPL EPD XPD FNO magnification marginal_ray chief_ray invariant = ABCD formulas; Lagrange invariant constant')
+def h3_pupils(ctx, K, stop, obj, ap, ft, mirrors):
+    import math
+    L = Lens(ctx, K, mirrors, stop, obj)
+    apv = ctx.real('apv', lo=0.01, hi=(0.9 if ap == 'objectNA' else 50.0))
+    fy = ctx.real('fy', lo=0.01, hi=(60.0 if ft == 'angle' else 50.0))
+    o = L.build(aperture=(ap, apv), field_type=ft, fields=(fy,))
+    px = o.paraxial
+    c_, t_, nb, na = L.full()
+    n0 = nb[0]
+    s = stop - 1                       # 0-based index of the stop in the chain
+    Ms = L.forward(0, s, True, False)  # surface 1 (before refraction) -> stop plane (before its refraction)
+    As, Bs = Ms[0][0], Ms[0][1]
+    EPLo = Bs * n0 / As
+    Mx = L.forward(s, K, False, True)  # stop plane (after its refraction) -> image surface (after refraction)
+    Bx, Dx = Mx[0][1], Mx[1][1]
+    ni = na[-1]
+    XPLo = -Bx * ni / Dx
+    M = L.forward()
+    f2o = -ni / M[1][0]
+    z_obj = None if obj == 'inf' else -L.t0
+    epl = px.EPL()
+    ctx.observe('EPL', epl)
+    _oblige_val(ctx, 'EPL', epl, EPLo)
+    _oblige_val(ctx, 'XPL', px.XPL(), XPLo)
+    prim = [EPLo, XPLo, f2o]
+    if ap == 'EPD':
+        EPDo = apv
+    elif ap == 'imageFNO':
+        EPDo = f2o / apv
+    else:
+        sn = apv / n0
+        EPDo = 2 * (EPLo - z_obj) * (sn / ctx.sqrt(1 - sn * sn))
+    prim.append(EPDo)
+    deg = not all(ctx.finite(q) for q in prim)
+    _oblige_val(ctx, 'EPD', px.EPD(), EPDo, deg)
+    _oblige_val(ctx, 'FNO', px.FNO(), apv if ap == 'imageFNO' else f2o / EPDo, deg)
+    # marginal ray
+    if obj == 'inf':
+        y1, u0 = EPDo / 2, ctx.const(0.0)
+        y_start = y1
+    else:
+        u0 = EPDo / (2 * (EPLo - z_obj))
+        y1 = u0 * L.t0
+        y_start = ctx.const(0.0)
+    ya, ua = px.marginal_ray()
+    ctx.observe('ya_last', ya[-1])
+    ctx.observe('ua_last', ua[-1])
+    _oblige_val(ctx, 'marg_y0', ya[0], y_start, deg)
+    _oblige_val(ctx, 'marg_u0', ua[0], u0, deg)
+    ymo, umo = [], []
+    for k in range(K + 1):
+        Mk = L.forward(0, k, True, True)
+        yk = Mk[0][0] * y1 + Mk[0][1] * n0 * u0
+        uk = (Mk[1][0] * y1 + Mk[1][1] * n0 * u0) / na[k]
+        ymo.append(yk)
+        umo.append(uk)
+        _oblige_val(ctx, f'marg_y{k + 1}', ya[k + 1], yk, deg)
+        _oblige_val(ctx, f'marg_u{k + 1}', ua[k + 1], uk, deg)
+    # chief ray: through the stop centre; object-space slope tan(field) / object point (-t0, -fy)
+    if ft == 'angle':
+        ub0 = ctx.tan(fy * (math.pi / 180.0))
+        yb1 = -EPLo * ub0
+    else:
+        ub0 = As * fy / (As * L.t0 + Bs * n0)
+        yb1 = -fy + L.t0 * ub0
+    deg = deg or not (ctx.finite(ub0) and ctx.finite(yb1) and ctx.finite(u0) and ctx.finite(y1))
+    yb, ub = px.chief_ray()
+    ybo, ubo = [], []
+    for k in range(K + 1):
+        Mk = L.forward(0, k, True, True)
+        yk = Mk[0][0] * yb1 + Mk[0][1] * n0 * ub0
+        uk = (Mk[1][0] * yb1 + Mk[1][1] * n0 * ub0) / na[k]
+        ybo.append(yk)
+        ubo.append(uk)
+        _oblige_val(ctx, f'chief_y{k + 1}', yb[k + 1], yk, deg)
+        _oblige_val(ctx, f'chief_u{k + 1}', ub[k + 1], uk, deg)
+    # the returned chief ray passes through the centre of the stop
+    _oblige_val(ctx, 'chief_at_stop', yb[stop], ctx.const(0.0), deg)
+    # Lagrange invariant n (yb*ua - ya*ub): one value at every surface, equal to invariant()
+    nlib = o.n()
+    inv = px.invariant()
+    ctx.observe('invariant', inv)
+    h0 = None
+    for k in range(0, K + 2):
+        hk = ctx.val(nlib[k]) * (ctx.val(yb[k]) * ctx.val(ua[k]) - ctx.val(ya[k]) * ctx.val(ub[k]))
+        sgn = -1 if sum(L.mirrors[:k]) % 2 else 1   # index sign reversal after each mirror
+        if k == 0:
+            if obj == 'inf':
+                continue   # the object-surface record of the marginal ray is taken 10 mm before surface 1, the chief ray's at surface 1
+            h0 = hk
+            continue
+        if k == 1:
+            _oblige_val(ctx, 'invariant_fn', inv, hk)   # invariant() is this quantity at surface 1
+            h0 = sgn * hk
+        else:
+            _oblige_val(ctx, f'invariant_{k}', sgn * hk, h0, deg)
+    # ... and it equals the object-space value n0 (yb1*u0 - y1*ub0) of the oracle rays
+    _oblige_val(ctx, 'invariant_objspace', h0, n0 * (yb1 * u0 - y1 * ub0), deg)
+    # magnification, exit pupil diameter
+    mo = n0 * u0 / (na[-1] * umo[-1])
+    if obj != 'inf':
+        _oblige_val(ctx, 'magnification', px.magnification(), (n0 * u0) / (ctx.val(nlib[-1]) * umo[-1]), deg)
+    XPDo = 2 * (ymo[-1] + umo[-1] * XPLo)
+    _oblige_val(ctx, 'XPD', px.XPD(), XPDo, deg)
+
+
+@harness('C04', 'H4_linear', funcs=FUNCS,
+         cases=lambda tier: [dict(K=2, mirrors=()), dict(K=2, mirrors=(2,))] + ([dict(K=4, mirrors=())] if tier == 'thorough' else []),
+         bounds='K=2 (thorough 4); two arbitrary launch rays and two arbitrary weights',
+         doc='_trace_generic is linear in launch height and slope: trace(a r1 + b r2) = a trace(r1) + b trace(r2)')
+def h4_linear(ctx, K, mirrors):
+    L = Lens(ctx, K, mirrors, 1, 'inf')
+    o = L.build()
+    px = o.paraxial
+    y1, u1, y2, u2, a, b = (ctx.real(n) for n in ('y1', 'u1', 'y2', 'u2', 'a', 'b'))
+    z0 = ctx.real('z0', hi=0.0)
+    w = 0.55
+    Y1, U1 = px._trace_generic(y1, u1, z0, w)
+    Y1, U1 = [ctx.val(v) for v in Y1], [ctx.val(v) for v in U1]
+    Y2, U2 = px._trace_generic(y2, u2, z0, w)
+    Y2, U2 = [ctx.val(v) for v in Y2], [ctx.val(v) for v in U2]
+    Y3, U3 = px._trace_generic(a * y1 + b * y2, a * u1 + b * u2, z0, w)
+    for k in range(len(Y3)):
+        ctx.oblige(f'lin_y{k}', ctx.eq(Y3[k], a * Y1[k] + b * Y2[k]))
+        ctx.oblige(f'lin_u{k}', ctx.eq(U3[k], a * U1[k] + b * U2[k]))
+    ctx.observe('y_last', Y3[-1])
